@@ -249,7 +249,7 @@ pub fn check_shape(n: usize, edges: u32, dir: &Path, case: &Value) -> (Vec<Viola
 // ---------------------------------------------------------------------------------------------
 // (b), (c) output contract and filter law through the binary
 
-pub const CORPUS: [(&str, &str); 5] = [
+pub const CORPUS: [(&str, &str); 6] = [
     (
         "mixed",
         "pragma circom 2.0.0;\n\nfunction g(a) {\n    var unused = 3;\n    return a * 2;\n}\n\ntemplate A(n) {\n    signal input in;\n    signal output out;\n    signal mid;\n    var x = 0;\n    mid <-- in / 2;\n    if (1 == 1) {\n        x = g(n);\n    }\n    out <-- ~in;\n    component c = Num2Bits(254);\n    c.in <== in;\n}\n\ntemplate Num2Bits(n) {\n    signal input in;\n    signal output out[n];\n    var lc = 0;\n    for (var i = 0; i < n; i++) {\n        out[i] <-- (in >> i) & 1;\n        out[i] * (out[i] - 1) === 0;\n        lc += out[i] * 2 ** i;\n    }\n    lc === in;\n}\n\ncomponent main = A(2);\n",
@@ -273,7 +273,22 @@ pub const CORPUS: [(&str, &str); 5] = [
         "twins",
         "pragma circom 2.0.0;\n\ntemplate Two() {\n    signal input in;\n    signal output o1;\n    signal output o2;\n    signal output o3[2];\n    o1 <== in;\n    o2 <== in;\n    o3[0] <== in;\n    o3[1] <== in;\n}\n\ntemplate W() {\n    signal input in;\n    signal output out;\n    component t = Two();\n    t.in <== in;\n    component u[2];\n    for (var i = 0; i < 2; i++) {\n        u[i] = Two();\n        u[i].in <== in;\n    }\n    out <-- in;\n    out <-- in;\n}\n\ncomponent main = W();\n",
     ),
+    (
+        // The included file (see `included_text`) has parse-phase reports of its own: an include
+        // that cannot be resolved, a malformed tuple, a clash with a definition of this file.
+        "inc-errors",
+        "pragma circom 2.0.0;\n\ntemplate Lib() {\n    signal input in;\n    signal output out;\n    out <-- in * in * in;\n}\n\ntemplate User() {\n    signal input in;\n    signal output out;\n    component l = Lib();\n    l.in <== in;\n    out <== l.out;\n}\n",
+    ),
 ];
+
+/// Text of the included file of a corpus project.
+pub fn included_text(name: &str) -> &'static str {
+    if name == "inc-errors" {
+        "pragma circom 2.1.0;\ninclude \"missing.circom\";\n\ntemplate Lib() {\n    signal input in;\n    signal output out;\n    out <-- in;\n}\n\ntemplate BadTuple() {\n    signal input a;\n    signal output b;\n    signal output c;\n    (b, c) <== (a, a, a);\n}\n"
+    } else {
+        INCLUDED
+    }
+}
 
 /// Input arguments of a corpus project: the main file and, for `twins`, two files that do not
 /// exist (named by absolute path so that every run prints the same message).
@@ -649,7 +664,7 @@ pub fn run(run: &Run) {
         } else {
             main
         };
-        runner::write_project(&dir, &[("main.circom", &main), ("lib.circom", INCLUDED)]);
+        runner::write_project(&dir, &[("main.circom", &main), ("lib.circom", included_text(name))]);
         let unfiltered_main = run_config(&dir, "main.circom", "info", &[], true, false);
         let unfiltered = run_config(&dir, &corpus_inputs(name, &dir, "main.circom"), "info", &[], true, false);
         // File clause: everything the analysis produces (in-process, unfiltered) that is not
@@ -751,7 +766,7 @@ pub fn replay(case: &Value) -> Vec<Violation> {
             } else {
                 format!("include \"lib.circom\";\n{text}")
             };
-            runner::write_project(&base, &[("main.circom", &main), ("lib.circom", INCLUDED)]);
+            runner::write_project(&base, &[("main.circom", &main), ("lib.circom", included_text(name))]);
             let unfiltered = run_config(&base, &corpus_inputs(name, &base, "main.circom"), "info", &[], true, false);
             let allow: Vec<String> = case["allow"].as_array().map(|a| a.iter().filter_map(|v| v.as_str().map(String::from)).collect()).unwrap_or_default();
             let sub = base.join("w");
